@@ -91,7 +91,7 @@ def main():
         })
     m = {
         "version": 1,
-        "setup_cmd": "python3 tools/gen_lean.py && (cd lean && lake build) && (cd harness && CARGO_NET_OFFLINE=true cargo build --offline --bin gse_ops)",
+        "setup_cmd": "(cd harness && CARGO_NET_OFFLINE=true cargo build --offline --bin gse_ops) && python3 tools/gen_lean.py && (cd lean && lake build)",
         "hooks": {
             "guard": "dvb_gse_rust_verif",
             "enable": "harness/.cargo/config.toml passes --cfg dvb_gse_rust_verif to rustc for the harness crate and its path dependency /repo",
